@@ -163,7 +163,23 @@ class NetBatch:
            returns the python trace (list of value vectors, index 0 = null wire)"""
         import py4hw
         sim = sim if sim is not None else sys_obj.getSimulator()
-        d = Dump(sys_obj, sim)
+        try:
+            d = Dump(sys_obj, sim)
+        except NotDumpable as e:
+            # a leaf the translator does not cover (or no longer covers): the model leg is skipped, the implementation
+            # is still driven so that the caller's oracle (extra_check) runs on it
+            self.res.hist('not_dumpable', str(e))
+            d = Dump(sys_obj, sim, allow_unknown=True)
+            trace = [d.values()]
+            for op in ops:
+                if op[0] == 'poke':
+                    op[1].put(op[2])
+                else:
+                    sim.clk(op[1])
+                trace.append(d.values())
+                if extra_check:
+                    extra_check(d, sim)
+            return trace
         start = len(self.lines)
         self.lines += d.lines + d.schedule_lines(order, drivers) + ['begin', 'vals']
         trace = [d.values()]
